@@ -44,7 +44,9 @@ pub fn ignore_filter(entry: &DirEntry, ignore: &Option<Gitignore>) -> bool {
         None => true,
         Some(gi) => {
             let path = entry.path();
-            let m = gi.matched(path, path.is_dir());
+            // The kind of the entry itself: to git a symbolic link
+            // to a directory is not a directory.
+            let m = gi.matched(path, entry.file_type().is_dir());
             !m.is_ignore()
         }
     }
